@@ -421,6 +421,31 @@ def through_get_remote_object(ctx, r, xml_text, pairs, w, case):
     if r.random() < 0.5:
         asked.reverse()
     peer = clientfix.Peer().ready()
+    if r.random() < 0.5:
+        # first a look-up that fails: the caller also asks for an interface the object does not have (probing for an
+        # optional one).  That failure must not change what is known locally.
+        probe = clientfix.Outcome(peer.proto.getRemoteObject('org.verif.P', '/obj', [name0, 'org.verif.c15.NotThere'],
+                                                             replaceKnownInterfaces=False))
+        for m in peer.take():
+            if m.fields.get('member') == 'Introspect':
+                peer.send(RM_.build(RM_.METHOD_RETURN, 8, {'reply_serial': m.serial}, 's', [xml_text]))
+        ctx.count('failed_lookups_first')
+        if probe.fired != 1 or probe.results[0][0] != 'err':
+            ctx.report('proxy-for-missing-interface', 'getRemoteObject asking for an interface the object does not export '
+                       'ended with %r' % ([(k, repr(v)[:120]) for k, v in probe.results],), w, case)
+            peer.lose()
+            return
+        if I.DBusInterface.knownInterfaces.get(name0) is not local:
+            ctx.report('known-interface-lost', 'after a failed look-up (an optional interface was missing) the locally known '
+                       'definition of %s is %s' % (name0, 'gone' if name0 not in I.DBusInterface.knownInterfaces
+                                                   else 'another object'), dict(w, local_definition=local_desc), case)
+            peer.lose()
+            return
+        # (the failed look-up has parsed the XML and thereby learnt the object's other interfaces; forget those again so
+        # that the look-up below still has something to discover)
+        I.DBusInterface.knownInterfaces.clear()
+        I.DBusInterface.knownInterfaces.update(_REGISTRY_AT_IMPORT)
+        I.DBusInterface.knownInterfaces[name0] = local
     out = clientfix.Outcome(peer.proto.getRemoteObject('org.verif.P', '/obj', asked, replaceKnownInterfaces=replace))
     calls = [m for m in peer.take() if m.fields.get('member') == 'Introspect']
     pw = dict(w, asked=[a if isinstance(a, str) else '<instance of %s>' % a.name for a in asked], replace=replace,
